@@ -216,4 +216,36 @@ PROPS = {
         require=["duplicate_panics_observed", "calls_returned", "sloppy_calls_returned"],
         assumptions=COMMON_ASSUME,
     ),
+    "C17": dict(
+        level="exploration",
+        rule=("the real capacity_to_buckets, bucket_mask_to_capacity, TableLayout::calculate_layout_for, TableLayout::new and ProbeSeq (called through the verif hooks) "
+              "are compared with u128 reference arithmetic: capacities 1..14 x element sizes 0..64, every capacity 15..2^27 (quick) / 15..2^32 (thorough, exhaustive "
+              "sub-space), +-512 (quick) / +-4096 (thorough) around every 2^k and 7/8*2^k up to usize::MAX; layouts for sizes 0..64, 200, 4096, 2^20, isize::MAX/2+-1 x "
+              "alignments 1..4096 (size a multiple of the alignment) x buckets 2^0..2^62; probe sequences for tables 2^0..2^20 (2^26 thorough) x every start position up "
+              "to 2^16 buckets, sampled above; under both group widths (16 in lane dbg, 8 in lane generic). evaluations = function evaluations checked; distinct = "
+              "distinct (function, result class) cells: (log2 buckets, element-size class), (size, align, log2 buckets) layout cells, table sizes probed"),
+        lanes=dict(
+            quick=lanes(("dbg", 16, 60000), ("generic", 16, 60000)),
+            thorough=lanes(("dbg", 16, 600000), ("generic", 16, 600000)),
+        ),
+        coverage_extra=dict(exhaustive_subspaces=["thorough tier: capacity_to_buckets for every capacity in 1..2^32 (layout-independent for capacity >= 15; capacities < 15 x element sizes 0..=64)",
+                                                  "probe sequence: every start position of every table size 2^0..2^16"]),
+        assumptions=COMMON_ASSUME,
+    ),
+    "C18": dict(
+        level="exploration",
+        rule=("(a) the same seeded order-free HashMap/HashTable histories (same scenario indices, same seeds) are executed in lane dbg (16-byte SSE2 scanner) and lane "
+              "generic (portable 8-byte scanner); each is checked against its model in its own lane, and the transcript digests (operation, return observation, final "
+              "contents; no capacities, allocation sizes or iteration order) of every scenario are compared across the lanes by the driver. (b) every scanner primitive "
+              "(match_tag, match_empty, match_empty_or_deleted, match_full, convert for rehash, aligned vs unaligned load, BitMask queries and iteration order) is "
+              "compared with its byte-by-byte definition on all 2-byte windows at every position x 5 backgrounds x 16 tags (all 130 in the thorough tier, all 256x256 "
+              "byte pairs) plus random groups; the portable tag match may additionally report a byte equal to tag^1 above a true match, nothing else. "
+              "evaluations = primitive evaluations + model-checked calls; distinct = (position, tag, background) cells and table-state x operation signatures"),
+        lanes=dict(
+            quick=lanes(("dbg", 8, 120000), ("generic", 8, 120000)),
+            thorough=lanes(("dbg", 16, 1200000), ("generic", 16, 1200000)),
+        ),
+        cross_lane=True,
+        assumptions=COMMON_ASSUME + ["NEON and LSX scanners cannot be executed on x86_64 and are not covered", "`--cfg miri` selects the portable scanner and has no other effect on hashbrown"],
+    ),
 }
